@@ -2,6 +2,7 @@ package govc
 
 import (
 	"fmt"
+	"math/big"
 	"go/token"
 	"go/types"
 	"math"
@@ -198,7 +199,7 @@ func (u *Unit) evalSpec(env *SpecEnv, e Expr) Value {
 	case *EIndex:
 		base := u.evalSpec(env, x.X)
 		idx := u.evalSpec(env, x.I)
-		return u.specIndex(env, base, idx.T)
+		return u.specIndex(env, base, u.toInt(idx.T, idx.Ty))
 	case *EField:
 		// package-qualified identifier?
 		if id, ok := x.X.(*EIdent); ok {
@@ -351,6 +352,13 @@ func (u *Unit) evalBinary(env *SpecEnv, x *EBinary) Value {
 	}
 	if isFloat(b.Ty) && isIntLit(x.X) {
 		a = Value{T: w.FConst(litFloat(x.X)), Ty: b.Ty}
+	}
+	if a.T != nil && b.T != nil {
+		a.T = coerceLit(a.T, b.T)
+		b.T = coerceLit(b.T, a.T)
+	}
+	if a.T != nil && b.T != nil && isBVSort(a.T.Sort) && isBVSort(b.T.Sort) && x.Op != "==" && x.Op != "!=" {
+		return u.specBV(env, x.Op, a, b)
 	}
 	switch x.Op {
 	case "==", "!=":
@@ -875,4 +883,100 @@ func (u *Unit) defineSpecFunc(env *SpecEnv, sf *SpecFunc) *specDef {
 	u.W.Declare(d.smtName, fmt.Sprintf("(%s %s (%s) %s %s)", kw, d.smtName, strings.Join(params, " "), d.resSort, body.String()))
 	u.specDefs[sf.Name] = d
 	return d
+}
+
+func (u *Unit) specBV(env *SpecEnv, op string, a, b Value) Value {
+	// width from the terms; signedness from the operand that is not a coerced literal
+	bits := bvWidth(a.T.Sort)
+	signed := false
+	typed := func(v Value) (bool, bool) {
+		if _, _, isLit := bvLitVal(v.T); isLit {
+			return false, false
+		}
+		if bt, ok := v.Ty.Underlying().(*types.Basic); ok && bt.Info()&types.IsInteger != 0 {
+			_, sg := intBits(bt)
+			return true, sg
+		}
+		return false, false
+	}
+	if ok, sg := typed(a); ok {
+		signed = sg
+	} else if ok, sg := typed(b); ok && op != "<<" && op != ">>" {
+		signed = sg
+	}
+	bs := bvSort(bits)
+	pick := func(sop, uop string) string {
+		if signed {
+			return sop
+		}
+		return uop
+	}
+	at, bt := a.T, b.T
+	if op == "<<" || op == ">>" {
+		cbits := bvWidth(bt.Sort)
+		if cbits < bits {
+			bt = App(fmt.Sprintf("(_ zero_extend %d)", bits-cbits), bs, bt)
+		} else if cbits > bits {
+			low := App(fmt.Sprintf("(_ extract %d 0)", bits-1), bs, bt)
+			bt = Ite(App("bvuge", "Bool", b.T, bvLit(big.NewInt(int64(bits)), cbits)), bvLit(big.NewInt(int64(bits)), bits), low)
+		}
+	} else if bvWidth(bt.Sort) != bits {
+		u.specErr("bit-vector operands of different width for %s (%s vs %s)", op, at.Sort, bt.Sort)
+	}
+	var t *Term
+	switch op {
+	case "+":
+		t = App("bvadd", bs, at, bt)
+	case "-":
+		t = App("bvsub", bs, at, bt)
+	case "*":
+		t = App("bvmul", bs, at, bt)
+	case "/":
+		t = App(pick("bvsdiv", "bvudiv"), bs, at, bt)
+	case "%":
+		t = App(pick("bvsrem", "bvurem"), bs, at, bt)
+	case "&":
+		t = App("bvand", bs, at, bt)
+	case "|":
+		t = App("bvor", bs, at, bt)
+	case "^":
+		t = App("bvxor", bs, at, bt)
+	case "&^":
+		t = App("bvand", bs, at, App("bvnot", bs, bt))
+	case "<<":
+		t = App("bvshl", bs, at, bt)
+	case ">>":
+		t = App(pick("bvashr", "bvlshr"), bs, at, bt)
+	case "<":
+		t = App(pick("bvslt", "bvult"), "Bool", at, bt)
+	case "<=":
+		t = App(pick("bvsle", "bvule"), "Bool", at, bt)
+	case ">":
+		t = App(pick("bvsgt", "bvugt"), "Bool", at, bt)
+	case ">=":
+		t = App(pick("bvsge", "bvuge"), "Bool", at, bt)
+	default:
+		u.specErr("bit-vector operator %s", op)
+	}
+	ty := a.Ty
+	if _, _, isLit := bvLitVal(a.T); isLit && op != "<<" && op != ">>" {
+		ty = b.Ty
+	} else if isLit && (op == "<<" || op == ">>") {
+		// 1 << z takes the type of whatever it is later compared with; keep an unsigned type of that width
+		switch bits {
+		case 32:
+			ty = types.Typ[types.Uint32]
+		case 64:
+			ty = types.Typ[types.Uint64]
+		}
+	}
+	if t.Sort == "Bool" {
+		ty = boolType
+	}
+	return Value{T: t, Ty: ty}
+}
+
+func isUntyped(t types.Type) bool {
+	b, ok := t.(*types.Basic)
+	return ok && b.Info()&types.IsUntyped != 0
 }
